@@ -128,6 +128,16 @@ def dollarDanger (r : List Nat) : Bool :=
   (r.head? = some BSL && (r.drop 1).head?.any (fun y =>
     y = c%'{' || y = c%'x' || y = c%'u' || y = c%'1' || y = 10 || y = 13 || y = 0xE2))
 
+/-- `parse.EqualFold(_, "x")` for one byte: equal, or an upper-case ASCII letter whose lower case is `x` -/
+def foldEq (d x : Nat) : Bool := d = x || (65 ≤ d && d ≤ 90 && d + 32 = x)
+
+/-- `parse.EqualFold(s, "/script")` -/
+def foldScript (s : List Nat) : Bool :=
+  match s with
+  | [a, b, c, d, e, f, g] =>
+    foldEq a c%'/' && foldEq b c%'s' && foldEq c c%'c' && foldEq d c%'r' && foldEq e c%'i' && foldEq f c%'p' && foldEq g c%'t'
+  | _ => false
+
 /-- one iteration of the loop of `replaceEscapes` at byte `c`, `r` = rest of the body -/
 def step (q : Nat) (an : Bool) (c : Nat) (r : List Nat) : Res :=
   if c = BSL then
@@ -136,9 +146,10 @@ def step (q : Nat) (an : Bool) (c : Nat) (r : List Nat) : Res :=
     | e :: r1 => escM q an e r1
   else if c = q ∨ (c = c%'$' ∧ q = BT ∧ dollarDanger r) then ([BSL, c], 0, false)
   else if c = 13 ∧ q = BT ∧ r.head? ≠ some 10 then ([10], 0, false)
-  else if c = c%'<' ∧ 8 ≤ r.length then
-    if r.head? = some BSL ∧ scriptEnd.isPrefixOf (r.drop 1) then (c :: BSL :: scriptEnd, 9, false)
-    else if scriptEnd.isPrefixOf r then ([c, BSL, c%'/'], 1, false)
+  else if c = c%'<' ∧ 7 ≤ r.length then
+    -- `</script` in any letter case, whatever follows (`parse.EqualFold` with `/script`)
+    if r.head? = some BSL ∧ 8 ≤ r.length ∧ foldScript ((r.drop 1).take 7) then (c :: BSL :: (r.drop 1).take 7, 8, false)
+    else if foldScript (r.take 7) then ([c, BSL, c%'/'], 1, false)
     else ([c], 0, false)
   else ([c], 0, false)
 
